@@ -181,3 +181,29 @@ def replay(ctx, path):
         print(l[:600])
     print("reproduced" if fails else "not reproduced on this tree")
     return 1 if fails else 0
+
+
+def crash_probe(ctx, pid, histories):
+    """Used by C09's check: expiry and purge heights must also hold across a RESTART (what Gatekeeper::new reloads); the
+    sequential tower histories have no restart, the crash harness does.  Runs the crash enumeration (quick tier) and
+    reports, for property `pid`, a monitor failure in one of the expiry/purge histories `histories` that is not a
+    recorded C03 finding, with the crash run as replay."""
+    if not ctx.cargo_build(["crash"]):
+        return
+    r = crash_runs(ctx, "quick", "probe")
+    if r is None:
+        return
+    summ, fails, _ = r
+    known03 = vlib.load_known("C03")
+    ctx.coverage["crash_runs_probed"] = summ.get("cases", 0)
+    for f in fails:
+        m = re.match(r"FAIL mon prop=C03 line=\d+ detail=([^:]+):(\S+) case=(CR (\d+) .*)$", f)
+        if not m:
+            continue
+        kind, detail, case, hist = m.group(1), m.group(2), m.group(3), int(m.group(4))
+        if hist not in histories or vlib.match_known(known03, {"key": {"kind": kind}}) is not None:
+            continue
+        ctx.add_violation(f"{pid}: after a restart the tower no longer treats the subscription as before ({kind}: {detail}) in crash run {case}",
+                          {"kind": "crash-run", "case": case, "class": kind, "detail": detail, "replay_with": "./vcheck C03 --replay"},
+                          {"kind": "crash-probe", "class": kind})
+        break
